@@ -50,6 +50,9 @@ class Operation(Contract):
         "xy|xy": (["x", "y"], ["x", "y"]),
         "0|x": ([], ["x"]),
         "x|0": (["x"], []),
+        # three dimensions, partly shared, in different orders (thorough tier)
+        "xyz|zx": (["x", "y", "z"], ["z", "x"]),
+        "zx|xyz": (["z", "x"], ["x", "y", "z"]),
     }
 
     QUICK = {"x|x": tuple(OPS), "x|y": ("add", "power"), "xy|x": ("add",), "x|xy": ("true_divide",), "y|xy": ("subtract",), "xy|yx": ("add",),
